@@ -96,4 +96,25 @@ theorem rawPts_ignores {ls ls' : List Str} (h : List.Forall₂ Spec.Inv.LineSame
     · simp only [List.mapM_cons, ih, rawPt, h2, h3]
     · exact ih
 
+theorem rawKeys_ignores {ls ls' : List Str} (h : List.Forall₂ Spec.Inv.LineSameButIgnored ls ls') : rawKeys ls' = rawKeys ls := by
+  unfold rawKeys
+  induction h with
+  | nil => rfl
+  | cons hl _ ih =>
+    obtain ⟨h1, h2, h3⟩ := raw_ignores hl
+    simp only [List.filter_cons, ← h1]
+    split
+    · simp only [List.mapM_cons, ih, h2]
+    · exact ih
+
+/-- a decidable sufficient condition (used by the examples) -/
+theorem lineSame_of_check {l l' : Str} (hlen : l.length = l'.length)
+    (h : (List.range l.length).all (fun i => Spec.Inv.ignoredColumn i || (l[i]? == l'[i]?)) = true) :
+    Spec.Inv.LineSameButIgnored l l' := by
+  refine ⟨hlen, fun i hi => ?_⟩
+  by_cases hlt : i < l.length
+  · have := List.all_eq_true.mp h i (List.mem_range.mpr hlt)
+    simpa [hi] using this
+  · rw [List.getElem?_eq_none (by omega), List.getElem?_eq_none (by omega)]
+
 end Proofs.Rmsd
